@@ -24,9 +24,9 @@ ASSUMPTIONS = [
     'molecular opacities recomputed from the generated tables (C04 reference); CIA/Rayleigh opacities as the contribution reports them; layer thickness = model.deltaz (judged in C11)',
     'rtol 1e-8 (fastmath Planck kernel)',
 ]
-RULE = RULE + ' ' + 'Worlds also come in integer-axis forms (wavenumber and/or temperature axes held as integer arrays of the same values). Histories: after the first evaluation the star temperature is changed on the same model object and the model evaluated again on the same grid (clause star-changed).'
+RULE = RULE + ' ' + 'Worlds also come in integer-axis forms (wavenumber and/or temperature axes held as integer arrays of the same values). Histories: after the first evaluation the star temperature is changed on the same model object and the model evaluated again on the same grid (clause star-changed); then one of temperature / planet mass / planet radius / an abundance is moved alone on the same model and the spectrum judged against the integral for the atmosphere as it now is (clause live-update).'
 REQUIRED = {'refused-quadrature-before-use': 0.2, 'kind:emission': 0.3, 'kind:directimage': 0.2, 'profile:iso': 0.1, 'profile:noniso': 0.3,
-            'regime:mixed': 0.08, 'star-changed': 0.3}
+            'regime:mixed': 0.08, 'star-changed': 0.3, 'live-update:planet_mass': 0.04, 'live-update:temperature': 0.02, 'live-update:abundance': 0.04, 'live-update:planet_radius': 0.04}
 PARSEC = 3.08567758e16
 
 
@@ -218,6 +218,46 @@ def check(case):
             pass
         finally:
             m.star.temperature = w['star_T']
+    # ---- a live update: ONE parameter of the SAME built model moved alone (what a retrieval does between evaluations), the
+    # model evaluated again: it must again be the layered integral for the atmosphere as it now is
+    if not borderline:
+        kinds = ['temperature', 'planet_mass', 'planet_radius', 'abundance']
+        kind_u = kinds[int(case['dist']) % 4]
+        fac = 0.6 + (case['dist'] - math.floor(case['dist'])) * 0.9
+        if abs(fac - 1.0) < 0.05:
+            fac = 1.3
+        cands = {'temperature': ['T', 'T_surface', 'T_top'], 'abundance': list(m.chemistry.activeGases)}.get(kind_u, [kind_u])
+        name = next((c_ for c_ in cands if c_ in m.fittingParameters), None)
+        old = m.fittingParameters[name][2]() if name is not None else None
+        if name is not None and isinstance(old, (float, int, np.floating)) and math.isfinite(old) and old > 0:
+            if kind_u == 'abundance' and fac > 1.0:
+                fac = 1.0 / fac                     # abundances only go down: the mixture stays valid
+            try:
+                m[name] = old * fac
+                with np.errstate(all='ignore'):
+                    r3 = cut(out, 'model@live-update', m.model)
+                s3 = np.asarray(r3[1], dtype=float)
+                T3 = np.asarray(m.temperatureProfile, dtype=float)
+                zb = np.asarray(m.altitude_boundaries, dtype=float)
+                Rp3 = Rp * (fac if kind_u == 'planet_radius' else 1.0)
+                if not np.all(np.isfinite(zb)) or zb.max() > 1e3 * Rp3 or zero_corner_ambiguous(W, m):
+                    out.cls('live-update:not-judged')
+                else:
+                    dtau3 = layer_dtau(out, W, m)
+                    if np.all(np.isfinite(dtau3)):
+                        flux3, _, _, border3 = ref.emission_reference(W.wn, T3, dtau3, ng)
+                        if not border3:
+                            out.cls('live-update:' + kind_u)
+                            out.applies('live-update')
+                            if kind == 'emission':
+                                want3 = flux3 * (Rp3 / Rs) ** 2 / ref.planck_wn(W.wn, w['star_T'])
+                            else:
+                                want3 = flux3 * Rp3 ** 2 / (2.0 * (case['dist'] * PARSEC) ** 2)
+                            if s3.shape != want3.shape or not close(s3, want3, rtol=1e-8, atol=tiny):
+                                out.fail('live-update@%s,%s' % (kind, kind_u), 'after %s x%.3f: got %s want %s (max rel %.2e)'
+                                         % (name, fac, s3[:3], want3[:3], maxrel(s3, want3) if s3.shape == want3.shape else -1))
+            except CutError:
+                pass
     out.applies('hot-cold-bounds')
     if np.any(spec < lo * (1 - 1e-8 - slack) - tiny) or np.any(spec > hi * (1 + 1e-8 + slack) + tiny):
         k = int(np.argmax(np.maximum(lo - spec, spec - hi) / np.maximum(hi, tiny)))
